@@ -17,8 +17,10 @@ must be IDENTICAL to Machine's (no canonicalisation at all).  Outside that envel
 (x two ways of obtaining them) must still agree with each other (verdict 2)."""
 import asyncio
 import copy
+import functools
 import logging
 import os
+import pickle
 import random
 
 import framework as F
@@ -69,7 +71,12 @@ RULE = ('cases 0-15 = the 16 factory flag tuples (get_predefined must return a c
         'queue programs. "dispatch" = a flat machine with 2-4 models in different states, every history entry is '
         'machine.dispatch(event, token, k=token) (awaited on the asyncio classes), replies depend on the callback only, '
         'invalid triggers ignored, <= 1 check per transition (always inside the async envelope); observed per call: each '
-        'model\'s own callback sequence and state, and the result (non-trivial: an earlier model refused, a later accepted). Each case runs on 12 classes x '
+        'model\'s own callback sequence and state, and the result (non-trivial: an earlier model refused, a later accepted). '
+        '"pickle" = a flat machine with 1-2 models is replaced by pickle.loads(pickle.dumps((machine, models))) BEFORE the '
+        'history (callbacks registered by name, resolved by the picklable model at call time), then: events, add_model '
+        'of a further model and events on it, remove_model of a model and events through its stale helpers, more events; '
+        'unqueued (Coq: the engine per call, positions running on) or queued (Queue.drain); add_model/remove_model '
+        'must not raise on any class (non-trivial: the added or the removed model ran transition callbacks). Each case runs on 12 classes x '
         '{by name, through the factory} x diagram backends %s (unavailable here: %s). Non-trivial: the base run '
         'executed a transition after a failed check, or processed >= 2 events / raised, and at least one async class '
         'was compared inside the async envelope; distinct by case hash.' % (BACKENDS, MISSING_BACKENDS))
@@ -87,6 +94,8 @@ ASSUMPTIONS = [
     'dispatch: the asyncio classes gather the models, so the callback order ACROSS models may differ from Machine\'s '
     'sequential order and is not compared (per-model sequences, states and the result are); the Coq side gives each '
     'model\'s view (the flat / hierarchical engine on that model\'s history) — Machine.dispatch itself is C10_dispatch',
+    'pickle stream: pickle itself is the runtime\'s (C15 owns the copy semantics); here only "a restored machine of any '
+    'class still behaves like Machine, also when models are added / removed afterwards"',
     'event names the machine knows (unknown names: hierarchical classes route AttributeError through on_exception/'
     'finalize, Machine raises it directly — excluded by the property text)',
 ]
@@ -432,6 +441,48 @@ def canon_dispatch(case, per_model):
     return out
 
 
+def gen_pickle(rng):
+    """the machine and its models go through pickle.loads(pickle.dumps(..)) BEFORE the history; afterwards a further
+    model is registered and used, a model is removed and still used through its (stale) helpers"""
+    c = flat.gen_case(rng, malformed=False, p_unknown=0.0, hist_len=1)
+    m = c['machine']
+    ns, ne = len(m['states']), len(m['events'])
+    nm = rng.randint(1, 2)
+    new = nm                                            # id of the model registered after the round trip
+    c['models'] = [(k, rng.randrange(ns)) for k in range(nm)] + [(new, c['init'])]
+    ops, j = [], [0]
+
+    def trig(mdl, n):
+        for _ in range(n):
+            ops.append(['trig', mdl, rng.choice([0, 0, 2]), rng.randrange(ne), 100 + j[0]])
+            j[0] += 1
+    for mdl in range(nm):
+        trig(mdl, rng.randint(0, 2))
+    ops.append(['add', new])
+    trig(new, rng.randint(1, 2))
+    removed = rng.randrange(nm + 1)
+    ops.append(['remove', removed])
+    trig(removed, rng.randint(1, 2))                    # through the helpers the removed model still carries
+    for mdl in rng.sample(range(nm + 1), nm + 1):
+        trig(mdl, rng.randint(0, 2))
+    c['ops'] = ops
+    if rng.random() < 0.35:
+        c['env']['bypos'][rng.randrange(0, 25)] = (True, draw_exn(rng), [])
+    c['queued'] = rng.choice([0, 0, 1])
+    c.pop('cls', None)
+    c.pop('history', None)
+    c['sub'] = 'pickle'
+    return c
+
+
+def enc_pickle(case):
+    trigs = [op for op in case['ops'] if op[0] == 'trig']
+    head = [flat.enc_machine(case['machine']), flat.enc_env(case['env']), [[m, s] for m, s in case['models']]]
+    if case.get('queued', 0):
+        return [1, head + [[[op[1], op[3], op[4]] for op in trigs]]]                 # Queue.drain over the engine
+    return [4, head + [[[op[1], [op[2], op[3], op[4]]] for op in trigs]]]
+
+
 def gen_batch(seed, n, tier):
     cases = []
     for k in ALL_FLAGS:
@@ -439,11 +490,13 @@ def gen_batch(seed, n, tier):
     crash_bases = []
     for i in range(n):
         rng = random.Random('C09-%d-%d' % (seed, i))
-        stream = ('flat', 'crash', 'queue', 'dispatch', 'crash', 'queue', 'may', 'flat')[i % 8]
+        stream = ('flat', 'crash', 'queue', 'dispatch', 'crash', 'pickle', 'may', 'queue')[i % 8]
         if stream == 'queue':
             cases.append(gen_queue(rng))
         elif stream == 'dispatch':
             cases.append(gen_dispatch(rng))
+        elif stream == 'pickle':
+            cases.append(gen_pickle(rng))
         else:
             follow = rng.randint(2, 4) if stream == 'crash' else 0     # events after the crashing call
             c = flat.gen_case(rng, malformed=False, may=(stream == 'may'), p_unknown=0.0,
@@ -491,6 +544,8 @@ def enc(case):
         return [1, enc_queue(case)]
     if case['sub'] == 'dispatch':
         return [3, enc_dispatch(case)]
+    if case['sub'] == 'pickle':
+        return enc_pickle(case)
     if flat_via_queue(case):
         # a queued machine: the faithful model is Queue.drain over the engine (a queued call returns True unless
         # it raises) — one model, no callback actions
@@ -738,6 +793,106 @@ def run_queue_on(case, cls, flags, backend, queued=True):
         runner.close()
 
 
+class PWorld(object):
+    """picklable shared recording state (travels through pickle together with the machine and its models)"""
+
+    def __init__(self, env, send):
+        self.env, self.send, self.pos, self.items = env, send, 0, []
+
+
+class NameWorld(object):
+    """build_machine registers every callback by NAME; the model resolves the name at call time"""
+
+    def recorder(self, slot, cb, model_of_call=None):
+        return 'cb__%s__%d' % (slot, cb)
+
+
+def _precord(model, slot, cb, *args, **kwargs):
+    world = model.c09_world
+    ret, exn, acts = _reply(world.env, cb, world.pos)
+    world.pos += 1
+    err = None
+    Token = flat.Token
+    if len(args) == 1 and not kwargs and type(args[0]).__name__.endswith('EventData'):
+        ed = args[0]
+        tok = ed.args[0] if len(ed.args) == 1 and isinstance(ed.args[0], Token) else None
+        ok = tok is not None and set(ed.kwargs.keys()) == {'k'} and ed.kwargs['k'] is tok and ed.model is model
+        arg = [1, tok.n if ok else 999]
+        if slot in ('on_exception', 'finalize'):
+            err = None if ed.error is None else classify_exc(ed.error)
+    else:
+        tok = args[0] if len(args) == 1 and isinstance(args[0], Token) else None
+        ok = tok is not None and set(kwargs.keys()) == {'k'} and kwargs['k'] is tok
+        arg = [0, tok.n if ok else 999]
+    world.items.append([flat.SLOT[slot], cb, model.c09_mid, flat.state_int(model), arg, opt(err), bool(ret), []])
+    if exn is not None:
+        raise make_exc(exn)
+    return bool(ret)
+
+
+class PModel(object):
+    """picklable model: callbacks are attributes resolved on demand (nothing unpicklable is stored anywhere)"""
+
+    def __init__(self, mid, world):
+        self.c09_mid, self.c09_world = mid, world
+
+    def __getattr__(self, name):
+        if name.startswith('cb__'):
+            _, slot, cb = name.split('__')
+            return functools.partial(_precord, self, slot, int(cb))
+        raise AttributeError(name)
+
+
+def run_pickle_on(case, cls, flags, backend):
+    is_async = bool(flags[3])
+    runner = Runner(is_async)
+    try:
+        world = PWorld(case['env'], case['machine']['send'])
+        ids = [k for k, _ in case['models']]
+        init = dict((k, s) for k, s in case['models'])
+        new = ids[-1]
+        models = dict((k, PModel(k, world)) for k in ids[:-1])
+        c2 = dict(case)
+        machine, _ = flat.build_machine(c2, NameWorld(), cls=cls, model=[models[k] for k in ids[:-1]],
+                                        extra_kwargs=dict(queued=queued_arg(case, flags), **class_kwargs(flags, backend)))
+        for k in ids[:-1]:
+            machine.set_state('s%d' % init[k], models[k])
+        # the round trip: from here on only the restored objects are used
+        machine, models, world = pickle.loads(pickle.dumps((machine, models, world)))
+        models[new] = PModel(new, world)
+
+        def state(k):
+            return flat.state_int(models[k]) if 'state' in models[k].__dict__ else init[k]
+        out, free = [], 1
+        for op in case['ops']:
+            world.items = []
+            if op[0] == 'trig':
+                _, k, kind, e, a = op
+                tok = flat.Token(a)
+                name = 'e%d' % e
+                try:
+                    if kind == 0:
+                        r = runner.call(lambda: models[k].trigger(name, tok, k=tok))
+                    else:
+                        r = runner.call(lambda: getattr(models[k], name)(tok, k=tok))
+                    res = [0, bool(r)]
+                except BaseException as ex:  # noqa
+                    res = [1, classify_exc(ex)]
+                out.append([world.items, res, [[i, state(i)] for i in ids]])
+            else:
+                try:
+                    if op[0] == 'add':
+                        machine.add_model(models[op[1]])
+                    else:
+                        machine.remove_model(models[op[1]])
+                except BaseException as ex:  # noqa — reconfiguring must not fail on any class
+                    out.append([world.items, [1, ['op-raised', op[0], type(ex).__name__]], [[i, state(i)] for i in ids]])
+            free = free and _lock_free(machine, flags)
+        return out, free
+    finally:
+        runner.close()
+
+
 def run_dispatch_on(case, cls, flags, backend):
     """machine.dispatch(event, token, k=token) on several models; observation per call: every model's own callback
     sequence and state (the asyncio classes gather the models: the order ACROSS models is not compared) and the result"""
@@ -849,6 +1004,8 @@ def impl_c09(case):
         return run_all_classes(case, run_queue_on)
     if case['sub'] == 'dispatch':
         return run_all_classes(case, run_dispatch_on)
+    if case['sub'] == 'pickle':
+        return run_all_classes(case, run_pickle_on)
     return run_all_classes(case, run_flat_on)
 
 
@@ -881,6 +1038,8 @@ def canon(case, obs):
         return [1, vs[0], [[lab, (2 if (fl[3] and not inside) else 1), 1] for lab, fl in labels()]]
     if case['sub'] == 'queue':
         vs = [canon_queue_steps(v) for v in variants]
+    elif case['sub'] == 'pickle' and case.get('queued', 0):
+        vs = [[(st if not isinstance(st, list) else st[:3]) for st in canon_queue_steps(v)] for v in variants]
     elif flat_via_queue(case):
         vs = [[(st if not isinstance(st, list) else [st[0], st[1], st[2][0][1]]) for st in canon_queue_steps(v)]
               for v in variants]
@@ -922,6 +1081,10 @@ def nontrivial(case, obs):
         return any(isinstance(s, list) and len(s) >= 5 and (len(s[4]) >= 2 or s[1][0] == 1) for s in base)
     if case['sub'] == 'dispatch':
         return any(_dispatch_refused_then_accepted(step) for step in base)
+    if case['sub'] == 'pickle':
+        # a model registered after the round trip, or a removed one, executed a transition / ran callbacks
+        special = {case['models'][-1][0]} | {op[1] for op in case['ops'] if op[0] == 'remove'}
+        return any(it[2] in special and it[0] >= 4 for step in base for it in step[0])
     for items, res, st in base:
         if (res == [0, True] and any(_failed_check(it) for it in items)) or res[0] == 1:
             return True
@@ -971,6 +1134,17 @@ def stats(case, obs, dist):
 
 def shrink_candidates(case):
     if case['sub'] == 'factory':
+        return
+    if case['sub'] == 'pickle':
+        for i, op in enumerate(case['ops']):
+            if op[0] == 'trig':
+                c = copy.deepcopy(case)
+                del c['ops'][i]
+                yield c
+        for p in list(case['env'].get('bypos', {})):
+            c = copy.deepcopy(case)
+            del c['env']['bypos'][p]
+            yield c
         return
     gens = shrink_queue if case['sub'] == 'queue' else __import__('c01').shrink_candidates
     for c in gens(case):
